@@ -531,6 +531,8 @@ class Machine:
             return False
         if s == '()':
             return Agg('tuple', '()', [])
+        if s in ('RangeFull', 'std::ops::RangeFull', 'core::ops::RangeFull'):
+            return Agg('struct', 'RangeFull', [])
         mo = re.match(r'^(?:[A-Za-z_:]*::)?(Option|Ordering|Sign|RoundingMode|FpCategory)(?:::<.*>)?::([A-Z][A-Za-z]*)$', s)
         if mo and mo.group(1) in ENUM_VARIANTS and (mo.group(2) in ENUM_VARIANTS[mo.group(1)]):
             return mk_enum(mo.group(1), mo.group(2))
@@ -654,6 +656,8 @@ class Machine:
             enum = parse_ty('::'.join(segs[:-1]))[1]
             if enum in ENUM_VARIANTS:
                 return mk_enum(enum, variant, [])
+            if enum and enum[:1].isupper() and variant[:1].isupper():
+                return Agg('enum', enum, [], variant)      # unit variant of an enum the engine never switches on
             raise Unsupported('path rvalue ' + rv.args[0])
         if k == 'cast':
             kind, op, ty = rv.args
